@@ -395,9 +395,7 @@ func (i *insertExecutor) parsePkValuesFromStatement(insertStmt *ast.InsertStmt, 
 				} else {
 					pkValues = append(pkValues, pkValue)
 				}
-				if _, ok := pkValuesMap[pkKey]; !ok {
-					pkValuesMap[pkKey] = pkValues
-				}
+				pkValuesMap[pkKey] = pkValues
 			}
 		}
 	} else {
